@@ -466,7 +466,7 @@ func runProgram(r *ev.Run, id string, i int) {
 // Run is the C18 monitor.
 func Run(r *ev.Run) {
 	r.Rule = "case i = f(seed,i): a handler derivation tree over WithGroup (incl. empty names) / WithAttrs, records with attribute trees to depth 3 mixing typed kinds, named, inline and empty groups, empty attrs and LogValuers resolving to any of those, slog levels -20..20, through Handle directly and through slog.Logger; each emitted JSON entry is compared with a reference model of the slog.Handler contract for that handler's own path; Enabled and handled-iff-enabled judged against the core's threshold; handlers are used in random order and all again at the end (isolation); distinct = distinct programs"
-	n := r.N(25000, 300000)
+	n := r.N(25000, 1200000)
 	for i := 0; i < n; i++ {
 		id := fmt.Sprintf("c18/%d", i)
 		if !r.Want(id) {
